@@ -1,8 +1,93 @@
 (* C05 — a matcher selects exactly the messages its documented meaning says.
-   Status: the full statement (C05_full, below) is NOT yet proved; proved so far are the laws of the
-   evaluator/simplifier it rests on.  See DESIGN.md section 9 C05. *)
-From WD Require Import Base Wire Conn Color Matcher MatcherParse MatcherProofs.
+   The documented language is WD.Doc: a syntax tree (dtop), its compositional meaning (denote, a
+   transcription of matchers.md), its concrete text (render, any amount of white space) and its
+   well-formedness (wf_top).  The tool is WD.MatcherParse.parse, WD.Matcher.simplify / matches, the
+   transcription of core/matcher.py.  C05_main joins the two halves:
+     T1 (C05_parse_render)          parse (render lay e) succeeds and simplifies to simplify (elab e)
+     T2 (C05_simplified_means_doc)  simplify (elab e) selects exactly what denote e says
+   Side conditions, each discussed in DESIGN.md:
+     mok_top          string literals ASCII, no label word made of float characters only (the model
+                      of Python float()/int() answers OutOfModel there; counterexamples cex_word, cex_str)
+     bracket_depth_ok bracket nesting <= 60 (the model's stand-in for the interpreter's recursion limit)
+     simple_side_ok   the message has an argument, or no argument list of the expression contains an
+                      item that accepts everything: exactly the D11 family, where the tool and the
+                      documentation genuinely differ (C05_args_star_refuted, C05_args_excl_star_refuted) *)
+From WD Require Import Base Wire Conn Color Matcher MatcherParse Doc MatcherProofs.
+From WD Require Import DocLay DocSemLevels DocSemTop DocParseE DocParseF DocLayC DocLayD.
 Open Scope Z_scope.
+
+Theorem C05_simplified_means_doc : forall e m, wf_top e = true -> side_condition e m ->
+  matches (simplify (elab e)) (VM m) = denote e m.
+Proof. exact simplified_means_doc. Qed.
+Print Assumptions C05_simplified_means_doc.
+
+Theorem C05_parse_render : forall lay e, wf_top e = true -> mok_top e = true -> bracket_depth_ok e ->
+  exists m, parse (Doc.render lay e) = Ok m /\ simplify m = simplify (elab e).
+Proof. exact parse_render. Qed.
+Print Assumptions C05_parse_render.
+
+(* the matcher the user gets from documented text (any white space) selects what the documentation says *)
+Theorem C05_main : forall lay e m,
+  wf_top e = true -> mok_top e = true -> bracket_depth_ok e -> simple_side_ok e m = true ->
+  exists p, parse_simplify (Doc.render lay e) = Ok p /\ matches p (VM m) = denote e m.
+Proof.
+  intros lay e m W M D S. destruct (parse_render lay e W M D) as [p [Hp Hs]].
+  exists (simplify p). split.
+  - unfold parse_simplify. rewrite Hp. reflexivity.
+  - rewrite Hs. apply simplified_means_doc_simple; assumption.
+Qed.
+Print Assumptions C05_main.
+
+(* EVERY white-space placement: Renders e s says the text s is a way of writing e, each strippable
+   position carrying its own run of white space (blanks, TABs, any str.isspace() character) *)
+Theorem C05_parse_renders : forall e s, wf_top e = true -> mok_top e = true -> bracket_depth_ok e ->
+  Renders e s -> exists m, parse s = Ok m /\ simplify m = simplify (elab e).
+Proof. exact parse_renders. Qed.
+Print Assumptions C05_parse_renders.
+
+Theorem C05_main_any_layout : forall e s m,
+  wf_top e = true -> mok_top e = true -> bracket_depth_ok e -> simple_side_ok e m = true -> Renders e s ->
+  exists p, parse_simplify s = Ok p /\ matches p (VM m) = denote e m.
+Proof.
+  intros e s m W M D S R. destruct (parse_renders e s W M D R) as [p [Hp Hs]].
+  exists (simplify p). split.
+  - unfold parse_simplify. rewrite Hp. reflexivity.
+  - rewrite Hs. apply simplified_means_doc_simple; assumption.
+Qed.
+Print Assumptions C05_main_any_layout.
+
+(* added white space does not change the matcher the user gets *)
+Theorem C05_whitespace_irrelevant_any : forall e s1 s2,
+  wf_top e = true -> mok_top e = true -> bracket_depth_ok e -> Renders e s1 -> Renders e s2 ->
+  exists p, parse_simplify s1 = Ok p /\ parse_simplify s2 = Ok p.
+Proof.
+  intros e s1 s2 W M D R1 R2.
+  destruct (parse_renders e s1 W M D R1) as [p1 [H1 S1]]. destruct (parse_renders e s2 W M D R2) as [p2 [H2 S2]].
+  exists (simplify p1). unfold parse_simplify. rewrite H1, H2. split; [reflexivity|]. cbn. rewrite S2, <- S1. reflexivity.
+Qed.
+Print Assumptions C05_whitespace_irrelevant_any.
+
+(* the uniform layouts of Doc.render and the stream-driven renderer used by the harness are instances *)
+Theorem C05_render_is_Renders : forall lay e, Renders e (Doc.render lay e).
+Proof. exact render_uniform. Qed.
+Theorem C05_render_l_is_Renders : forall l e, Renders e (render_l l e).
+Proof. exact render_l_Renders. Qed.
+Print Assumptions C05_render_l_is_Renders.
+
+(* redundant brackets do not change what is selected: a bracketed single element means the element *)
+Theorem C05_redundant_brackets : forall (t : dtext) s, den_text (TList [t] []) s = den_text t s.
+Proof. intros. cbn [den_text]. unfold den_list. cbn [existsb negb]. rewrite orb_false_r, andb_true_r. reflexivity. Qed.
+
+(* added white space does not change what is selected (uniform layouts) *)
+Corollary C05_whitespace_irrelevant : forall lay1 lay2 e,
+  wf_top e = true -> mok_top e = true -> bracket_depth_ok e ->
+  exists p1 p2, parse_simplify (Doc.render lay1 e) = Ok p1 /\ parse_simplify (Doc.render lay2 e) = Ok p2 /\ p1 = p2.
+Proof.
+  intros lay1 lay2 e W M D.
+  destruct (parse_render lay1 e W M D) as [p1 [H1 S1]]. destruct (parse_render lay2 e W M D) as [p2 [H2 S2]].
+  exists (simplify p1), (simplify p2). unfold parse_simplify. rewrite H1, H2. repeat split; try reflexivity. congruence.
+Qed.
+Print Assumptions C05_whitespace_irrelevant.
 
 (* a comma list matches when any alternative does and anything after `!` excludes, at every
    level, and constant folding does not change that *)
@@ -57,3 +142,23 @@ Proof. vm_compute. repeat split. Qed.
 Example C05_args_star_refuted :
   ev "(*)" m_commit = Some true /\ ev "(* ! 12345)" m_commit = Some false.
 Proof. vm_compute. split; reflexivity. Qed.
+
+(* the same finding stated against the documented language, and its second shape: an exclusion that
+   accepts everything, with no positive item, is folded to `never`, although a message without
+   arguments has no argument to exclude.  Both lie outside simple_side_ok and nowhere else. *)
+Definition e_star := TPats [mkDpat None (BFull OAny None (Some (AItems [IItem None (Some VAny)] [])))] [].
+Definition e_excl_star := TPats [mkDpat None (BFull OAny None (Some (AItems [] [IItem None (Some VAny)])))] [].
+Definition tool (e : dtop) (m : vmsg) : option bool :=
+  match parse_simplify (Doc.render 0 e) with Ok p => Some (matches p (VM m)) | Raise _ _ => None end.
+Example C05_args_star_refuted_doc :
+  wf_top e_star = true /\ mok_top e_star = true /\ Doc.render 0 e_star = s2l "(*)" /\
+  denote e_star m_commit = false /\ tool e_star m_commit = Some true /\ simple_side_ok e_star m_commit = false.
+Proof. vm_compute. repeat split. Qed.
+Example C05_args_excl_star_refuted :
+  wf_top e_excl_star = true /\ mok_top e_excl_star = true /\ Doc.render 0 e_excl_star = s2l "(!*)" /\
+  denote e_excl_star m_commit = true /\ tool e_excl_star m_commit = Some false /\ simple_side_ok e_excl_star m_commit = false.
+Proof. vm_compute. repeat split. Qed.
+(* the hypotheses of C05_main are satisfiable: with an argument present the tool follows the documentation *)
+Example C05_main_nonvacuous :
+  simple_side_ok e_star m_attach = true /\ tool e_star m_attach = Some (denote e_star m_attach) /\ denote e_star m_attach = true.
+Proof. vm_compute. repeat split. Qed.
